@@ -413,6 +413,20 @@ def check_type_guards(ctx, rule, fi, source_texts, what):
                         alias_defs[t.id] = n
             if not isinstance(src, str) and isinstance(n, ast.expr) and is_source(n):
                 aliases.add(norm(n))
+            if not isinstance(src, str) and src[0] == "values-of-call" and isinstance(n, ast.For) and \
+                    isinstance(n.iter, ast.Call) and isinstance(n.iter.func, ast.Attribute) and n.iter.func.attr == "items" \
+                    and isinstance(n.target, ast.Tuple) and len(n.target.elts) == 2 and isinstance(n.target.elts[1], ast.Name):
+                # the mapping iterated is (a local bound to) a call chain containing every callee name of src[1:]
+                recv = n.iter.func.value
+                exprs = [recv]
+                if isinstance(recv, ast.Name):
+                    exprs = [d.value for d in (rd.at(n, recv.id) or []) if d.kind == "assign" and d.value is not None]
+                def has_all(e):
+                    names = {x.func.attr if isinstance(x.func, ast.Attribute) else getattr(x.func, "id", None)
+                             for x in ast.walk(e) if isinstance(x, ast.Call)}
+                    return all(c in names for c in src[1:])
+                if exprs and all(has_all(e) for e in exprs):
+                    aliases.add(n.target.elts[1].id)
             if not isinstance(src, str) and src[0] == "values-of" and isinstance(n, ast.For) and \
                     isinstance(n.iter, ast.Call) and isinstance(n.iter.func, ast.Attribute) and n.iter.func.attr == "items" \
                     and norm(n.iter.func.value) == src[1] and isinstance(n.target, ast.Tuple) and len(n.target.elts) == 2 \
